@@ -42,6 +42,7 @@ def shards(tier):
     if tier == "thorough":
         out += [("core", s) for s in seq_shards(spaces.SIGMA_DOC_CORE, 7, min_len=7)]
     out += [("ext", s) for s in seq_shards(spaces.SIGMA_DOC_EXT, 3 if tier == "quick" else 4)]
+    out += [("mini", s) for s in seq_shards(spaces.SIGMA_DOC_MINI, 3 if tier == "quick" else 5)]
     out += spaces.deviation_shards(len(spaces.BASE_DOCS), 1 if tier == "quick" else 2)
     out += [("layout", i) for i in range(len(LAYOUT_WS))]
     out += [("big", n, v) for n in (bigdocs.SIZES_QUICK if tier == "quick" else bigdocs.SIZES_THOROUGH) for v in (0, 1)]
@@ -309,6 +310,9 @@ def run_shard(shard, tier, acc):
             check_text("".join(toks), acc)
     elif kind == "ext":
         for toks in seq_iter(spaces.SIGMA_DOC_EXT, shard[1]):
+            check_text("".join(toks), acc)
+    elif kind == "mini":
+        for toks in seq_iter(spaces.SIGMA_DOC_MINI, shard[1]):
             check_text("".join(toks), acc)
     elif kind == "dev":
         for edits, toks in spaces.deviation_iter(shard, spaces.SIGMA_DOC):
